@@ -1,10 +1,10 @@
 SPEC_PART = dict(
     props_file="C18_bloom",
-    legs=[dict(family="bloom", focus="size", oracles=["prop_layout"], profiles=["debug"], n_quick=10, n_thorough=40)],
+    legs=[dict(family="bloom", focus="size", oracles=["prop_layout"], profiles=["debug"], n_quick=16, n_thorough=48)],
     trusted=[],
     assumptions=[],
     covers="bloom: |serialize f| = 24 (empty) or 32 + 8 * words for ANY filter (c18_bloom_image_size); after any history the word "
            "count is ceil(num_bits / 64) of the constructor argument (c18_bloom_size_fixed_by_constructor); tie: serialize().len() "
            "of the crate checked against the formula (and the content against the Spec) after every power-of-two prefix of growing "
-           "streams (distinct, repeated, descending items; 2^12 items quick, 2^15 thorough)",
+           "streams (distinct, repeated, descending items; up to 2^13 items quick, 2^16 thorough, shorter for large filters)",
 )
